@@ -23,8 +23,8 @@ chk("C01", "treemc", "model_checking",
 
 SYS_NOTE = "Trusts ptrace syscall stops as the complete interface between libpathrs and the world (no vDSO-only or io_uring paths are used by the library); schedules/faults are explored at syscall boundaries only; races inside one syscall are the kernel's. Kernel-without-X simulated by ENOSYS."
 chk("C02", "sysmc", "model_checking",
-    "Stateless model checking of the real implementation at its syscall boundary: for every lookup scenario on the race tree, every attacker mutation of a stated alphabet is applied before every tree-relevant syscall (all schedules up to the deviation bound: 1 quick, 2 thorough), and every execution is judged by a containment oracle the supervisor computes itself (objects ever reachable from the root over all tree states of the run; link bodies read only from such objects). Failing schedules are replayed once before being reported.",
-    SYS_NOTE + " The attacker cannot move the root itself. POR: mutations only before namespace-touching syscalls.",
+    "Stateless model checking of the real implementation at its syscall boundary: for every lookup scenario on the race tree, every attacker mutation of a stated alphabet is applied before every tree-relevant syscall (all schedules up to the deviation bound: 1 quick, 2 thorough; several mutations may fall between the same two syscalls; the alphabet includes replacing entries inside a directory that was moved out of the root by never-inside look-alikes, explored at bound 2 in the quick tier with the move/plant alphabet; plus operations performed after work on another root with the same descriptor number), and every execution is judged by a containment oracle the supervisor computes itself (objects ever reachable from the root over all tree states of the run; link bodies read only from such objects). Failing schedules are replayed once before being reported.",
+    SYS_NOTE + " The attacker cannot rename the root directory itself (the statement is about entries of the tree; the library documents that its root-moved detection is defeatable). POR: mutations only before namespace-touching syscalls. DESIGN.md 22.",
     "deviation-bounded exhaustive schedule enumeration under a ptrace-controlled scheduler (stateless model checking of the implementation)", "DESIGN.md 4/C02")
 chk("C03", "sysmc", "model_checking",
     "Same explorer as C02 over every mutating operation (create x types, create_file, mkdir_all, remove_*, rename, links): all attacker schedules up to the bound, plus a bounded-exhaustive sweep of argument spellings ('.', '..', absolute, through links pointing outside). Oracles: every mutating/opening syscall's directory descriptor must be an ever-inside inode, and whole-filesystem snapshots of the jail show that no never-inside object was removed/modified and nothing was created in a never-inside directory.",
